@@ -41,6 +41,7 @@ class Run:
         self.floors = {}
         self.info = {}
         self.notes = []
+        self.analysis_errors = []
         self.assumptions = []
         self.t0 = time.time()
         self.rule_docs = {}
@@ -56,6 +57,30 @@ class Run:
         key = "%s|%s|%s" % (rule, f, construct)
         self.obs.append(Ob(rule, key, bool(ok), f, line, what, detail, nontrivial))
         return ok
+
+    def guard(self, label):
+        """context manager around one section of a rule module: an AnalysisError inside it (anchor not found, construct not understood) is recorded and the other
+        sections still run. At the end the run exits 1 if some section found a violation (the analysis errors are printed as notes), 2 if there are only analysis
+        errors. A NameError in a later section is treated the same way when an earlier section failed (it depends on what that section would have computed)."""
+        run = self
+
+        class _G:
+            def __enter__(self_):
+                return self_
+
+            def __exit__(self_, et, ev, tb):
+                if et is None:
+                    return False
+                if issubclass(et, AnalysisError) or (issubclass(et, (NameError, UnboundLocalError)) and run.analysis_errors):
+                    run.analysis_errors.append("%s: %s" % (label, ev))
+                    return True
+                if issubclass(et, (IndexError, KeyError, AttributeError, TypeError, ValueError, StopIteration)):
+                    # the rule code met a shape it was not written for: an analysis error of this section, not a verdict
+                    run.analysis_errors.append("%s: construct not understood (%s: %s)" % (label, et.__name__, ev))
+                    return True
+                return False
+
+        return _G()
 
     def note(self, s):
         self.notes.append(s)
@@ -78,6 +103,10 @@ class Run:
         return counts
 
     def finish(self, explanation, level="other", extra_cov=None, write=True):
+        if self.analysis_errors and not [o for o in self.violations() if o.key not in load_known(self.prop)]:
+            raise AnalysisError("; ".join(self.analysis_errors[:3]))
+        for a in self.analysis_errors:
+            self.note("section not analysed: %s" % a)
         try:
             counts = self.check_floors()
         except AnalysisError as e:
